@@ -28,6 +28,7 @@ import (
 	"strconv"
 	"strings"
 	"sync"
+	"unicode/utf8"
 )
 
 type (
@@ -62,6 +63,11 @@ type (
 )
 
 func newPPipe(svc *Service, p Pipe) (*ppipe, error) {
+	// the definition is written to the registry file as JSON strings: encoding/json would replace bytes that
+	// are not valid UTF-8, the pipe would come back from a restart under another name
+	if !utf8.ValidString(p.Name) || !utf8.ValidString(p.TagsCond) || !utf8.ValidString(p.FltCond) {
+		return nil, errors.Errorf("the pipe name and conditions must be valid UTF-8: %q", p.Name)
+	}
 	srcF, err := lql.BuildTagsExpFunc(p.TagsCond)
 	if err != nil {
 		return nil, errors.Wrapf(err, "could not parse source condition %s", p.TagsCond)
